@@ -3,6 +3,7 @@
 //!   pvh gen <stream> --seed S --cases K --tier quick|thorough      (ops on stdout)
 //!   pvh run <stream>                                                (ops on stdin, replies on stdout)
 #![allow(clippy::all, dead_code, unused)]
+mod fixtures;
 mod fw;
 mod streams;
 
